@@ -136,21 +136,29 @@ def canon_func(repo: Repo, modname: str, qualname: str) -> Func:
     if key not in cache:
         f = repo.func(modname, qualname)
         infer = ROLE_INFERENCE.get(key)
-        cache[key] = rename_locals(f, infer(f)) if infer else f
+        if infer is None:
+            cache[key] = f
+        else:
+            import inspect
+            roles = infer(f, repo) if len(inspect.signature(infer).parameters) == 2 else infer(f)
+            cache[key] = rename_locals(f, roles)
     return cache[key]
 
 
 # ---------------------------------------------------------------------------------- numba._apply_group_method_single_chunk
 
-def _roles_single_chunk(f: Func) -> Dict[str, str]:
-    """indexer / check_in_bounds / target: the locals handed to _group_by_reduce under those keywords (keyword names are
-    the callee's parameter names, i.e. interface, not spelling of locals)"""
+def _roles_single_chunk(f: Func, repo: Repo) -> Dict[str, str]:
+    """indexer / check_in_bounds / target: the locals handed to _group_by_reduce for those parameters, by keyword or by position
+    (the names are the callee's parameter names, i.e. interface, not spelling of locals)"""
     out: Dict[str, str] = {}
+    callee_params = list(repo.func(f.module.name, "_group_by_reduce").named_params)
     for c in walk_no_nested(f.node):
         if _call_ends(c, "_group_by_reduce"):
-            for k in c.keywords:
-                if k.arg in ("indexer", "check_in_bounds", "target") and isinstance(k.value, ast.Name):
-                    out[k.value.id] = k.arg
+            bound = [(p, a) for p, a in zip(callee_params, c.args) if not isinstance(a, ast.Starred)]
+            bound += [(k.arg, k.value) for k in c.keywords]
+            for p, a in bound:
+                if p in ("indexer", "check_in_bounds", "target") and isinstance(a, ast.Name):
+                    out[a.id] = p
     if len(out) < 2:
         raise AnalysisError(f"canon: the call of _group_by_reduce in {f.qualname} is not recognised")
     return out
